@@ -368,3 +368,94 @@ func genPreloadQuery(o *out, cb map[string]*ast.File) {
 	o.facts["preloadFindWholeValues"] = whole
 	o.facts["preloadTxReassignments"] = reassign
 }
+
+// ---- round 5: how a relation's key field is found among nested embedded structs -----------------------------------------------
+//
+// schema/schema.go LookUpFieldByBindName: the for statement (direction and bounds of the walk over the prefixes of the relation
+// field's bind path, the key it builds) and schema/relationship.go guessRelation: the order of its two lookups per candidate list.
+
+func init() {
+	extraGens = append(extraGens, func(o *out, pkgs map[string]map[string]*ast.File, all []funcInfo, repo string) {
+		genBindLookupFacts(o, pkgs["schema"])
+	})
+}
+
+func genBindLookupFacts(o *out, sc map[string]*ast.File) {
+	found, loops := false, 0
+	initS, condS, postS, keyS, rangeS := "", "", "", "", ""
+	guessFound := false
+	var guessCalls []string // LookUpFieldByBindName / LookUpField calls on foreignSchema inside primaryFieldLoop, source order
+	for _, f := range sc {
+		for _, d := range f.Decls {
+			fd, ok := d.(*ast.FuncDecl)
+			if !ok || fd.Body == nil {
+				continue
+			}
+			switch fd.Name.Name {
+			case "LookUpFieldByBindName":
+				found = true
+				ast.Inspect(fd.Body, func(n ast.Node) bool {
+					switch st := n.(type) {
+					case *ast.ForStmt:
+						loops++
+						if st.Init != nil {
+							initS = src(st.Init)
+						}
+						if st.Cond != nil {
+							condS = src(st.Cond)
+						}
+						if st.Post != nil {
+							postS = src(st.Post)
+						}
+					case *ast.RangeStmt:
+						loops++
+						rangeS = src(st.Key) + " := range " + src(st.X)
+					case *ast.AssignStmt:
+						if len(st.Lhs) == 1 && src(st.Lhs[0]) == "find" && len(st.Rhs) == 1 {
+							keyS = src(st.Rhs[0])
+						}
+					}
+					return true
+				})
+			case "guessRelation":
+				ast.Inspect(fd.Body, func(n ast.Node) bool {
+					ls, ok := n.(*ast.LabeledStmt)
+					if !ok || ls.Label.Name != "primaryFieldLoop" {
+						return true
+					}
+					guessFound = true
+					ast.Inspect(ls.Stmt, func(m ast.Node) bool {
+						if call, ok := m.(*ast.CallExpr); ok {
+							if sel, ok := call.Fun.(*ast.SelectorExpr); ok && src(sel.X) == "foreignSchema" &&
+								(sel.Sel.Name == "LookUpFieldByBindName" || sel.Sel.Name == "LookUpField") {
+								guessCalls = append(guessCalls, sel.Sel.Name)
+							}
+						}
+						return true
+					})
+					return false
+				})
+			}
+		}
+	}
+	norm := func(s string) string { return strings.Join(strings.Fields(s), " ") }
+	desc := loops == 1 && norm(initS) == "i := len(bindNames) - 1" && norm(condS) == "i >= 0" && norm(postS) == "i--"
+	prefixKey := norm(keyS) == `strings.Join(bindNames[:i], ".") + "." + name`
+	bindFirst := len(guessCalls) == 2 && guessCalls[0] == "LookUpFieldByBindName" && guessCalls[1] == "LookUpField"
+	var b strings.Builder
+	b.WriteString("/-- schema/schema.go LookUpFieldByBindName exists and has exactly one loop -/\n")
+	b.WriteString("def bindLookupFound : Bool := " + lbool(found && loops == 1) + "\n\n")
+	b.WriteString("/-- the loop header as written (init; cond; post) or the range clause -/\n")
+	b.WriteString("def bindLookupLoopHeader : String := " + lstr(norm(initS+"; "+condS+"; "+postS+" "+rangeS)) + "\n\n")
+	b.WriteString("/-- the loop runs `i := len(bindNames) - 1; i >= 0; i--`: from the struct that declares the relation OUTWARD -/\n")
+	b.WriteString("def bindLookupDescending : Bool := " + lbool(desc) + "\n\n")
+	b.WriteString("/-- the key tried at step i is `strings.Join(bindNames[:i], \".\") + \".\" + name` -/\n")
+	b.WriteString("def bindLookupPrefixKey : Bool := " + lbool(prefixKey) + "\n\n")
+	b.WriteString("/-- schema/relationship.go guessRelation, primaryFieldLoop: lookups on foreignSchema in source order -/\n")
+	b.WriteString("def guessLookupCalls : List String := " + lstrs(guessCalls) + "\n\n")
+	b.WriteString("/-- … first LookUpFieldByBindName over all candidate names, then LookUpField over all candidate names -/\n")
+	b.WriteString("def guessBindFirst : Bool := " + lbool(guessFound && bindFirst) + "\n")
+	o.write("BindLookupFacts", b.String())
+	o.facts["bindLookupDescending"] = desc
+	o.facts["guessBindFirst"] = guessFound && bindFirst
+}
